@@ -37,8 +37,11 @@ CASE_ATOMS = ['../FOO/', '../LIBS/', '<ABS-CARTS>', '../CARTS2/',
               # so these strings name (non-existing) files inside the directory - unless something rewrites them
               '..\\', '\\', 'sub\\', 'foobar\\',
               # the same inside a Lua string literal (backslash escaped)
-              '..\\\\', '\\\\', 'foobar\\\\']
-INCLUDE_ONLY = ('carts2/', 'carts/', '<ABS-CARTS>', '../CARTS2/', '..\\', '\\', 'sub\\', 'foobar\\')
+              '..\\\\', '\\\\', 'foobar\\\\',
+              # siblings of a directory whose name holds pattern characters ('p.r+j'): the names a pattern built from
+              # that name would also match
+              '../pXr+j/', '../p.rrj/']
+INCLUDE_ONLY = ('carts2/', 'carts/', '<ABS-CARTS>', '../CARTS2/', '..\\', '\\', 'sub\\', 'foobar\\', '../pXr+j/', '../p.rrj/')
 REQUIRE_ONLY = ('\xff', '\\255', '..\\\\', '\\\\', 'foobar\\\\')     # a byte that is not UTF-8, raw and as a Lua escape; escaped backslashes
 
 
@@ -56,6 +59,7 @@ class Sandbox(object):
                   os.path.join(r, 'foobar'), self.libs, self.abs, os.path.join(self.carts, 'game'),
                   os.path.join(self.carts, 'shared'), self.carts2, os.path.join(self.carts2, 'game'),
                   os.path.join(r, 'x'), os.path.join(r, 'lib'), os.path.join(r, 'FOO'), os.path.join(r, 'LIBS'),
+                  os.path.join(r, 'p.r+j'), os.path.join(r, 'pXr+j'), os.path.join(r, 'p.rrj'),
                   os.path.join(self.home, '.lexaloffle', 'pico-8', 'CARTS'),
                   os.path.join(self.home, '.lexaloffle', 'pico-8', 'CARTS2')):
             os.makedirs(d, exist_ok=True)
@@ -65,6 +69,7 @@ class Sandbox(object):
         canaries = ['x.lua', 'init.lua', 'lib.lua', 'x/init.lua', 'lib/init.lua', 'lib/x.lua', 'foobar/x.lua',
                     'foobar/init.lua', 'foobar/lib.lua', 'abs/x.lua', 'abs/init.lua', 'x',
                     'FOO/x.lua', 'FOO/lib.lua', 'FOO/init.lua', 'FOO/x', 'LIBS/x.lua', 'LIBS/lib.lua',
+                    'pXr+j/x.lua', 'pXr+j/lib.lua', 'p.rrj/x.lua', 'p.rrj/lib.lua', 'p.r+j/x.lua',
                     'home/.lexaloffle/pico-8/CARTS/x.lua', 'home/.lexaloffle/pico-8/CARTS/lib.lua',
                     'home/.lexaloffle/pico-8/CARTS2/x.lua', 'home/.lexaloffle/pico-8/CARTS2/lib.lua']
         for f in inside + canaries:
@@ -133,6 +138,8 @@ def location_class(sb, rp):
     rel = os.path.relpath(rp, sb.root)
     if any(part in ('FOO', 'LIBS', 'CARTS', 'CARTS2') for part in rel.split(os.sep)):
         return 'root-name-in-other-letter-case'
+    if rel.split(os.sep)[0] in ('pXr+j', 'p.rrj'):
+        return 'name-matching-the-root-as-a-pattern'
     if rel.startswith('foobar' + os.sep):
         return 'prefix-sharing-sibling'
     if rel.startswith('abs' + os.sep):
@@ -274,13 +281,16 @@ def check_require_nested(sb, p, lp, res, form='paren'):
     res.outcome(('require-nested',))
 
 
-CART_LOCS = ['plain', 'cartsroot', 'carts2', 'carts2top']
+CART_LOCS = ['plain', 'cartsroot', 'carts2', 'carts2top', 'metachars']
 
 
 def check_include(sb, p, loc, res):
     from pico8.game import file as p8file
     res.evaluations += 1
-    if loc == 'plain':
+    if loc == 'metachars':
+        d = os.path.join(sb.root, 'p.r+j')      # a directory name with characters that mean something in a pattern
+        root = d
+    elif loc == 'plain':
         d = sb.proj
         root = sb.proj
     elif loc == 'cartsroot':
